@@ -164,6 +164,18 @@ CLAIMED = {
             'Reserved = documented lower-case keywords, register names, H S B K (plus not, null, breakpoint). Open known finding: '
             'a string ending in a backslash followed by another quote on the line.',
             'DESIGN.md section 6, C16'),
+    'C05': ('model_checking', 'TLC exhaustive exploration of every compiled image under the abstract control machine Image.tla (all paths, calls to depth 3) + relocation check parsed code vs loaded code',
+            'Nothing is executed: Parser.get_program() and Loader.get_code()/get_routines() are exported verbatim (op-codes, jump '
+            'conditions and offsets, routine entry addresses) for generated scripts of every profile - including routine definitions '
+            'inside if/repeat bodies - and for every script, example and test literal shipped with the repository. TLC explores each '
+            'image exhaustively (conditional jumps both ways, data abstracted) and checks in every reachable state: pc in range, '
+            'frames balanced at the end, pc inside the body of the routine called, markers never executed, calls resolve, END_LOOP '
+            'pairs with LOOP, returns have a caller, jumps stay in their segment; and once per image that the loaded code is the '
+            'documented rearrangement of the parsed code and that every jump leads to the same instruction before and after loading.',
+            'Trusted: TLC, the exporter (its segment scan is checked against the spec\'s definition on images <= 120 instructions). '
+            'Data is abstracted, so an infeasible path is checked too (sound for safety). Recursion cut at 3 nested calls. The '
+            'nested profile is also run and validated against Lang.tla under C03, which binds the image to behaviour.',
+            'DESIGN.md section 6, C05'),
     'C06': ('exploration', 'generated inputs (token soup, mutants, injected rule violations, noise, edge corpus) through the real compiler and VM; TLC decides each record against the two-outcome contract (TraceCompile.tla)',
             'Every input goes through ScriptJob.load_string (watchdog for hangs); accepted texts are executed by the real loader and VM '
             'over SimLan with an instruction budget. TLC checks per record: finishes, no exception, accept-with-program or '
